@@ -388,7 +388,7 @@ def coq_eval(header, exprs, shards=None):
     return res
 
 
-_tok = re.compile(r'\s*(?:("(?:[^"]|"")*")|(-?\d+)(?:%[A-Za-z_]+)?|([A-Za-z_][A-Za-z0-9_.\']*)|(.))', re.S)
+_tok = re.compile(r'\s*(?:%[A-Za-z_]+\s*)*(?:("(?:[^"]|"")*")|(-?\d+)(?:%[A-Za-z_]+)?|([A-Za-z_][A-Za-z0-9_.\']*)|(.))', re.S)
 
 
 def parse_term(t):
